@@ -256,6 +256,12 @@ def _run_one(args):
         os.chdir(ctx.tmp)
         mod.run_job(job, ctx)
         res = ctx.result()
+    except SystemExit as exc:
+        # something below the job asked the interpreter to exit (an argument parser rejecting a command line the job
+        # treats as plain set-up): on code where the property holds that never happens; a silent worker exit would hang the pool
+        ctx.violation("%s|uncaught-process-exit" % mod.PROP, "job %s: a set-up step ended in SystemExit(%r)" % (job.get("name"), exc.code),
+                      {"whole_job": {k: v for k, v in job.items() if k != "single"}, "job": job.get("name")})
+        res = ctx.result()
     except Exception as exc:  # noqa
         tb = traceback.extract_tb(exc.__traceback__)
         lib = os.path.join(REPO, "cincoconfig") + os.sep
